@@ -373,7 +373,7 @@ fn main() {
     rep.sample(json!({"individual_history": format!("{:?}", [IOp::Eval(0, 0), IOp::CloneOver(0), IOp::MutNoWrite(1), IOp::CloneFrom(1), IOp::Eval(0, 1)])}));
     individual_histories(&rep, len);
 
-    let seeds = rep.tier.pick(3usize, 40usize);
+    let seeds = rep.tier.pick(10usize, 40usize);
     let cases = templates::cases(rep.quick(), rep.seed, seeds);
     let n = cases.len();
     std::thread::scope(|s| {
@@ -389,7 +389,7 @@ fn main() {
         }
     });
     rep.count("template_runs", n as u64);
-    pipelines(&rep, rep.tier.pick(3_000, 100_000));
+    pipelines(&rep, rep.tier.pick(10_000, 100_000));
     if rep.counter("hook_events") == 0 {
         rep.inconclusive("hook never reached");
     }
